@@ -33,8 +33,9 @@ ASSUMPTIONS = [
     'generic exponents are natural numbers p >= 1 in the model (non-integer p such as 1.5 / 2.5 only probed)',
     'weights are positive (the code does not check array weights); fractions inside the np.isclose band of 1 '
     'are snapped to 1 by the code and by the model',
-    'the Q instance of the p-th root (exact on perfect powers, else floor approximations to 2^-64) approximates '
-    'the real root used by the theorems',
+    'norms only: the Q instance of the p-th root (exact on perfect powers, else floor approximations to 2^-64) '
+    'approximates the real root used by the theorems (for inner products the Q instance is PROVED to be the '
+    'rational restriction of the R instance: C02/Transfer.v)',
     'custom inner/norm/dist callables are pass-through (delegation probed, nothing to prove)']
 TRUSTED = [
     'C02/Model.v: apply_on_boundary(only_once=False) modelled as entry-wise product with the outer product of '
